@@ -29,8 +29,8 @@ import (
 
 // op is one decoded operation = one transaction of the history.
 type op struct {
-	kind    string   // e.g. neo.transfer, policy.block, kv.invoke
-	line    string   // the decoded op line for the model (without result)
+	kind    string // e.g. neo.transfer, policy.block, kv.invoke
+	line    string // the decoded op line for the model (without result)
 	tx      *transaction.Transaction
 	model   bool // the Lean model predicts the result of this op
 	votes   bool // may change NEO votes / candidates when it HALTs (recompute trigger in the real code)
